@@ -41,10 +41,11 @@ REQUIRED = [
 ]
 RULE = (
     "quad maps: structured n x m (n,m<=6), structured with removed cells, n x n core + 1-2 shell rings (3-valent "
-    "nodes), closed rings of 3-8 x 2-4 quads, k-stars k=3,5,6 (+ ring, + refinement: 3-/5-/6-valent interior nodes), library disks (OneCore, FourCore, "
-    "Wrapped, Half, Quarter, Oval); random node numbering, quad order, start corner, sense; random plane, shear, "
+    "nodes), closed rings of 3-8 x 2-4 quads, k-stars k=3,5,6 (+ ring, + refinement: 3-/5-/6-valent interior "
+    "nodes), library disks (OneCore, FourCore, Wrapped, Half, Quarter, Oval); random node numbering, quad order, start corner, sense; random plane, shear, "
     "origin, scale 0.1..100. hex: 2x2x2..3x3x3 lattices (full or with removed cells) and small quad maps extruded "
-    "into 2-3 layers (5-/7-valent interior nodes), every block renumbered by one of 24 rotations, interior jitter at build time or by Vertex.move_to. fixed sets: none / by index / by position "
+    "into 2-3 layers (5-/7-valent interior nodes), every block renumbered by one of 24 rotations, interior jitter "
+    "at build time or by Vertex.move_to. fixed sets: none / by index / by position "
     "(exact, within 1e-9, decoys) / mixed, split over 1-3 calls; 1-3 smooth() calls of 1..200 iterations. "
     "non-trivial: >=1 free interior node and >=1 boundary node; distinct by (kind, class, topology hash = multiset "
     "of (valence, boundary) + cell count, fixed pattern, stage pattern)"
@@ -57,6 +58,8 @@ ASSUMPTIONS = [
     "(isolated free nodes exact to 1e-12*ext, max-norm error to the harmonic solution non-increasing, convergence)",
     "convergence is judged only when the Jacobi bound sqrt(n*dmax/dmin)*rho^N*err0 <= 1e-12*ext (Gauss-Seidel is at "
     "least as fast for these M-matrices); tolerance 1e-9*ext, ext = bounding-box diagonal + max |coordinate|",
+    "copies of one node (faces sharing it, sketch.positions, grid points, block vertices) are compared to 1e-10*ext, "
+    "not bit-wise",
     "written file: 8 printed decimals -> |file - vertex| <= 0.51e-8 absolute",
     "mesh vertices are matched to lattice nodes by position (nodes are >= 0.01 apart, merge tolerance is 1e-7)",
 ]
